@@ -157,12 +157,36 @@ H['path'] = dict(
     },
 )
 
+FSRD = ['-include', 'libc_redirect_fs.h']
+FS_FN = {1: 'kill_preference', 2: 'memory_current', 3: 'memory_high', 4: 'swap_current', 5: 'pids_current', 6: 'memory_max', 7: 'memory_min', 8: 'memory_low', 9: 'swap_max', 10: 'memory_high_tmp', 11: 'cgroup_events', 12: 'oom_group'}
+
+
+def _fs_variant(fn, tpl, timeout=900):
+    n = len(tpl)
+    return dict(name='%s_%s' % (FS_FN[fn], tpl.replace(' ', '_') or 'empty'), defs={'H_FN': fn, 'H_LEN': n, 'H_TPL': '"%s"' % tpl, 'VSTL_STR_CAP': max(24, n + 2)}, unwind=max(9, n + 3), reach_optional=True, timeout=timeout)
+
+
+H['fsleaf'] = dict(
+    props=['C15', 'C10', 'C03'], dir='harness/fsleaf', keep=['vfx_fsk_openat'],
+    oomd=[('util/Fs.cpp', FSRD), 'util/Util.cpp'], cxx=['h_fsleaf.cpp'], c=['main_fsleaf.c', 'env/fs_libc_stubs.c'],
+    defs={'VSTL_STR_CAP': 8, 'VSTL_VEC_MAX': 6, 'VSTL_MAP_MAX': 4},
+    unwind=9, unwind_big=26, timeout=900,
+    functions=['Oomd::Fs::read', 'Oomd::Fs::hasxattrAt', 'Oomd::Fs::Fd::'],
+    variants={
+        'quick': [_fs_variant(1, '')] + [_fs_variant(fn, t) for fn in (2, 3, 4, 5, 10) for t in ('', 'AAA')] + [_fs_variant(fn, 'AAAA') for fn in (6, 7, 8, 9)]
+                 + [_fs_variant(11, 'populated En'), _fs_variant(11, 'EEnpopulated B'), _fs_variant(12, 'AA'), _fs_variant(2, 'DDDDDDn')],
+        'thorough': [_fs_variant(1, '')] + [_fs_variant(fn, t, 3000) for fn in range(2, 11) for t in ('', 'A', 'AA', 'AAA', 'AAAA', 'AAAAA', 'DDDDDDDDDn')]
+                    + [_fs_variant(11, t, 3000) for t in ('', 'populated En', 'EEnpopulated B', 'EEEEEEEEEEE', 'frozen 0npopulated Bn')] + [_fs_variant(12, t, 3000) for t in ('', 'A', 'AA', 'AAA')],
+    },
+)
+
 KILL_OOMD = [('plugins/BaseKillPlugin.cpp', ['-include', 'libc_redirect.h', '-include', 'noreg.h']), 'plugins/DumpKillInfoNoOp.cpp', ('util/Util.cpp', ['-DgenerateUuid=vf_unused_generateUuid']),
              'engine/Ruleset.cpp', 'engine/DetectorGroup.cpp', ('OomdContext.cpp', ['-Ddump=vf_unused_dump']), 'CgroupContext.cpp', 'include/CgroupPath.cpp', 'util/PluginArgParser.cpp', 'PluginRegistry.cpp', 'PluginConstructionContext.cpp']
 KILL_ENV = ['env/dump_stub.cpp', 'env/world.cpp', 'env/world_kill.cpp', 'env/stats_stub.cpp', 'env/uuid_stub.cpp', 'harness/common/scripted.cpp']
 H['kill'] = dict(
     props=['C01', 'C03', 'C04', 'C17'], dir='harness/kill',
     oomd=KILL_OOMD, cxx=['h_kill.cpp'] + KILL_ENV, c=['main_kill.c', 'env/libc_stubs.c'],
+    keep=['vfk_openat', 'vfk_syscall'],   # called only from the C stubs (env/libc_stubs.c)
     override_cxx=['env/kill_overrides.cpp'], override_symbols=['_ZN4Oomd14BaseKillPlugin14dumpMemoryStatERKNS_13CgroupContextE'],
     defs={'VSTL_STR_CAP': 24, 'VSTL_VEC_MAX': 4, 'VSTL_MAP_MAX': 6, 'VFW_MAXN': 5, 'VFW_MAXPIDS': 2, 'VF_CFG_N': 12},
     unwind=9, unwind_big=25, timeout=1500,
@@ -174,6 +198,7 @@ H['kill'] = dict(
             dict(name='star_n5', defs={'H_NODES': 5, 'H_PAT': 1, 'H_NPIDS': 1, 'H_NO_KERNELKILL': 1}, props=['C01', 'C03', 'C17'], reach_optional=True),
             dict(name='kk_n3', defs={'H_NODES': 3, 'H_PAT': 2, 'H_NPIDS': 1, 'H_KERNELKILL': 1}, props=['C01', 'C17'], reach_optional=True),
             dict(name='drywet_n3', defs={'H_NODES': 3, 'H_PAT': 1, 'H_NPIDS': 1, 'H_MODE': 1, 'H_NO_KERNELKILL': 1}, props=['C04'], reach_optional=True),
+            dict(name='xattr_unit', defs={'H_NODES': 2, 'H_PAT': 0, 'H_NPIDS': 1, 'H_MODE': 3}, props=['C17'], reach_optional=True),
         ],
         'thorough': [
             dict(name='star_n5p2', defs={'H_NODES': 5, 'H_PAT': 1, 'H_NPIDS': 2, 'H_NO_KERNELKILL': 1}, props=['C01', 'C03', 'C17'], reach_optional=True, timeout=3000),
@@ -194,7 +219,7 @@ H['log'] = dict(
     unwind=26, timeout=900,
     functions=['Oomd::Log::debugLog', 'Oomd::Log::ioThread', 'Oomd::Log::kmsgLog', 'Oomd::LogStream::', 'Oomd::Util::writeFull'],
     variants={
-        'quick': [dict(name='step', defs={'H_MODE': 1}), dict(name='flush', defs={'H_MODE': 2}), dict(name='kmsg', defs={'H_MODE': 3})],
+        'quick': [dict(name='step', defs={'H_MODE': 1}, reach_optional=True), dict(name='step_smallcap', defs={'H_MODE': 1, 'H_SMALLCAP': 1}), dict(name='flush', defs={'H_MODE': 2}), dict(name='kmsg', defs={'H_MODE': 3})],
     },
 )
 
